@@ -267,9 +267,11 @@ class FStringNode:
 
     def close_parentheses(self, character):
         self.parentheses_count -= 1
-        if self.parentheses_count == 0:
-            # No parentheses means that the format spec is also finished.
-            self.format_spec_count = 0
+        if self.format_spec_count > self.parentheses_count:
+            # The closing brace of a replacement field finishes its format
+            # spec as well (e.g. the inner one in `{x:{y:1}{z}}`); without
+            # parentheses no format spec is left.
+            self.format_spec_count = self.parentheses_count
 
     def allow_multiline(self):
         return len(self.quote) == 3
